@@ -190,7 +190,22 @@ def verify_function(qualname, opts=None):
             rep.status = "ERROR"
             rep.reason = "no obligations generated"
             return rep
-        _discharge(obls, rep, opts)
+        if opts.get("defer"):
+            for ob in obls:
+                saved = smt.AXIOMS
+                rep.obligations.append(
+                    {
+                        "name": ob.key(),
+                        "kind": ob.kind,
+                        "line": ob.line,
+                        "status": "pending",
+                        "smt2": smt.export_query(ob.pc, ob.goal, ob.axioms),
+                        "relaxed": smt.export_relaxed(ob.pc, ob.goal) if ob.axioms is None else None,
+                    }
+                )
+            rep.status = "PENDING"
+        else:
+            _discharge(obls, rep, opts)
     except SpecInapplicable as e:
         rep.status = "SPEC-INAPPLICABLE"
         rep.reason = str(e)
@@ -335,3 +350,18 @@ def _smt_text(ob):
         s.add(f)
     s.add(z3.Not(ob.goal))
     return s.to_smt2()
+
+
+def settle(rep_dict):
+    """function status from the statuses of its (solved) obligations"""
+    if rep_dict["status"] != "PENDING":
+        return rep_dict
+    st = "PROVED"
+    for o in rep_dict["obligations"]:
+        if o["status"] == "refuted":
+            st = "REFUTED"
+            break
+        if o["status"] != "discharged":
+            st = "UNDECIDED"
+    rep_dict["status"] = st
+    return rep_dict
